@@ -14,6 +14,9 @@ RULE = ("random feature trees with tags at all levels, tag selection, --stop, dr
         "the reference model's hook sequence; then EVERY k < |H0| is taken as an injection point (the k-th hook call "
         "raises; Exception and AssertionError alternate, both in thorough) and the run is compared with the fault-free "
         "run; thorough adds pairs of injection points. A case = one execution (fault-free or with fault k); "
+        "Round 11 additions: the same single faults under a fail-fast environment (after_scenario skips the rest of the feature / rule), "
+        "directed at step-less scenarios; a raising cleanup followed by a later hook fault; a process sample whose environment.py binds "
+        "hooks to functions, partial objects, callable objects and bound methods. "
         "non-trivial = a fault fired in a program with >=2 scenario instances; distinct by hash of (program, args, k, exc).")
 ASSUMPTIONS = [
     "KeyboardInterrupt / context.abort() outcomes are left out of these programs (abort semantics belong to C01)",
@@ -690,7 +693,10 @@ def replay(case, mon):
     errs, owner0 = check_grammar(obs0.hooks, struct)
     print("fault-free grammar errors:", errs)
     f = case.get("hook_fault")
-    if f and "k" in f and case.get("fail_fast"):
+    if case.get("raising_cleanup_in_first_scenario"):
+        base.pop("raising_cleanup_in_first_scenario", None)
+        cleanup_then_fault(lab, mon, base, struct, random.Random(0), "thorough")
+    elif f and "k" in f and case.get("fail_fast"):
         base.pop("fail_fast", None)
         failfast_fault(lab, mon, base, struct, owner0, obs0.hooks, f["k"], case["fail_fast"], f.get("exc", "Exception"))
     elif f and "k" in f:
